@@ -21,6 +21,7 @@
 #include "icinga/host.hpp"
 #include "icinga/service.hpp"
 #include <cstdio>
+#include <fstream>
 #include <cstring>
 #include <set>
 
@@ -211,6 +212,9 @@ struct Tracked { std::string type; std::string name; };
 static std::vector<Tracked> l_Tracked;
 static std::string l_GlobalsBase, l_OthersBase;
 static bool l_CwInit = false;
+static std::set<std::pair<std::string, std::string>> l_BaseObjects;     // every object that existed when the case began
+static bool l_BaseTaken = false;
+static std::set<std::string> l_BaseFiles;      // object files that existed when the case began
 
 static void DigestValue(std::ostringstream& o, const Value& v, int depth)
 {
@@ -268,18 +272,64 @@ static void Track(const std::string& t, const std::string& n)
 	if (!IsTracked(t, n)) { l_Tracked.push_back({t, n}); l_OthersBase = OthersDigest(); }
 }
 
-static size_t CountFiles()
+// every object file below the package: <packages>/_api/<stage>/conf.d/**.conf
+static std::vector<std::string> ObjectFiles()
 {
-	size_t n = 0;
+	std::vector<std::string> files;
 	String dir = ConfigPackageUtility::GetPackageDir() + "/_api";
-	Utility::GlobRecursive(dir, "*", [&n](const String& p) {
-		if (p.GetLength() > 5 && p.SubStr(p.GetLength() - 5) == ".conf") {
-			// the stage's own include.conf / active.conf are not object files
-			String base = Utility::BaseName(p);
-			if (p.Contains("/conf.d/")) n++;
-		}
+	Utility::GlobRecursive(dir, "*", [&files](const String& p) {
+		// the stage's own include.conf / active.conf are not object files
+		if (p.GetLength() > 5 && p.SubStr(p.GetLength() - 5) == ".conf" && p.Contains("/conf.d/")) files.push_back(p.GetData());
 	}, GlobFile);
-	return n;
+	std::sort(files.begin(), files.end());
+	return files;
+}
+
+static std::string ReadFileBytes(const std::string& path)
+{
+	std::ifstream f(path, std::ios::binary);
+	std::ostringstream o;
+	o << f.rdbuf();
+	return o.str();
+}
+
+// FNV-1a, 64 bit - a digest of the file's bytes (the model prints the same digest of the text it generated)
+static std::string Fnv64(const std::string& s)
+{
+	unsigned long long h = 0xcbf29ce484222325ULL;
+	for (unsigned char c : s) { h ^= c; h *= 0x100000001b3ULL; }
+	char buf[20];
+	snprintf(buf, sizeof(buf), "%016llx", h);
+	return buf;
+}
+
+static std::string TrackedPath(const Tracked& x)
+{
+	try { return ConfigObjectUtility::ComputeNewObjectConfigPath(Type::GetByName(x.type), x.name).GetData(); } catch (...) { return ""; }
+}
+
+// the file tree: the files of the tracked (type, name) pairs in tracking order as T<index>:<digest>, then every
+// other file as ?<hex of the path below the package>:<digest>
+static std::string FileTree(size_t& count)
+{
+	std::vector<std::string> files;
+	for (auto& p : ObjectFiles()) if (!l_BaseFiles.count(p)) files.push_back(p);      // files this case did not find in place
+	count = files.size();
+	std::set<std::string> left(files.begin(), files.end());
+	std::string r;
+	for (size_t i = 0; i < l_Tracked.size(); i++) {
+		std::string p = TrackedPath(l_Tracked[i]);
+		if (p.empty() || !left.count(p)) continue;
+		bool dup = false;       // two tracked names with one path (cannot happen with an injective EscapeName): listed once
+		for (size_t j = 0; j < i; j++) if (TrackedPath(l_Tracked[j]) == p) dup = true;
+		if (dup) continue;
+		r += (r.empty() ? "" : ",") + ("T" + std::to_string(i)) + ":" + Fnv64(ReadFileBytes(p));
+	}
+	for (size_t i = 0; i < l_Tracked.size(); i++) left.erase(TrackedPath(l_Tracked[i]));
+	std::string base = (ConfigPackageUtility::GetPackageDir() + "/_api/").GetData();
+	for (auto& p : left)
+		r += (r.empty() ? "" : ",") + ("?" + HexEnc(p.compare(0, base.size(), base) == 0 ? p.substr(base.size()) : p)) + ":" + Fnv64(ReadFileBytes(p));
+	return r.empty() ? "-" : r;
 }
 
 static void CwInitOnce()
@@ -287,37 +337,66 @@ static void CwInitOnce()
 	if (l_CwInit) return;
 	l_CwInit = true;
 	LoadConfig("object CheckCommand \"cwcmd\" { command = [ \"/bin/true\" ] }\n"
+		"object NotificationCommand \"cwncmd\" { command = [ \"/bin/true\" ] }\n"
+		"object User \"cwuser\" { }\n"
 		"template Host \"cwtmpl\" { notes = \"from-template\" }\n");
+}
+
+static size_t CountAllObjects()
+{
+	size_t n = 0;
+	for (const Type::Ptr& type : Type::GetAllTypes()) {
+		auto *ct = dynamic_cast<ConfigType *>(type.get());
+		if (ct) n += ct->GetObjects().size();
+	}
+	return n;
 }
 
 static void CaseBegin()
 {
 	CwInitOnce();
+	if (!l_BaseTaken) {
+		l_BaseTaken = true;
+		l_BaseObjects.clear();
+		l_BaseFiles.clear();
+		for (auto& p : ObjectFiles()) l_BaseFiles.insert(p);
+		for (const Type::Ptr& type : Type::GetAllTypes()) {
+			auto *ct = dynamic_cast<ConfigType *>(type.get());
+			if (!ct) continue;
+			for (const ConfigObject::Ptr& obj : ct->GetObjects()) l_BaseObjects.insert({type->GetName().GetData(), obj->GetName().GetData()});
+		}
+	}
 	if (l_GlobalsBase.empty()) { l_GlobalsBase = GlobalsDigest(); l_OthersBase = OthersDigest(); }
 }
 
-// one line per tracked (type, name): object / active / package / config item / file
+static std::string ShortName(const std::string& full)
+{
+	size_t p = full.rfind('!');
+	return p == std::string::npos ? full : full.substr(p + 1);
+}
+
+// one entry per tracked (type, name): object / active / package / config item / file; then the number of objects
+// created since the case began, the number of object files, the file tree, globals, other objects
 static std::string StoreLine()
 {
 	std::ostringstream o;
-	size_t nobj = 0;
-	for (const char *tn : {"Host", "Service"}) {
-		auto *ct = dynamic_cast<ConfigType *>(Type::GetByName(tn).get());
-		nobj += ct->GetObjects().size();
-	}
+	size_t nobj = CountAllObjects() - l_BaseObjects.size();
 	for (auto& x : l_Tracked) {
 		Type::Ptr type = Type::GetByName(x.type);
 		auto *ct = dynamic_cast<ConfigType *>(type.get());
 		ConfigObject::Ptr obj = ct->GetObject(x.name);
 		ConfigItem::Ptr item = ConfigItem::GetByTypeAndName(type, x.name);
 		bool unnamed = false;
-		for (auto& it : ConfigItem::m_UnnamedItems) if (it->GetType() == type && it->GetName() == String(x.name.substr(x.name.find('!') == std::string::npos ? 0 : x.name.find('!') + 1))) unnamed = true;
+		if (dynamic_cast<NameComposer *>(type.get()))
+			for (auto& it : ConfigItem::m_UnnamedItems) if (it->GetType() == type && it->GetName() == String(ShortName(x.name))) unnamed = true;
 		bool file = false;
 		try { file = Utility::PathExists(ConfigObjectUtility::ComputeNewObjectConfigPath(type, x.name)); } catch (...) {}
 		o << " " << x.type << ":" << HexEnc(x.name) << "=" << (obj ? (obj->IsActive() ? "A" : "o") : "-")
 			<< (obj ? (obj->GetPackage() == "_api" ? "r" : "s") : "-") << ((item || unnamed) ? "i" : "-") << (file ? "f" : "-");
 	}
-	o << " nobj=" << nobj << " nfiles=" << CountFiles();
+	size_t nfiles = 0;
+	std::string tree = FileTree(nfiles);
+	o << " nobj=" << nobj << " nfiles=" << nfiles << " files=" << tree;
 	o << " g=" << (GlobalsDigest() == l_GlobalsBase ? "same" : "CHANGED");
 	o << " others=" << (OthersDigest() == l_OthersBase ? "same" : "CHANGED");
 	return o.str();
@@ -352,6 +431,7 @@ VOP(cw_create)
 	} catch (const std::exception&) {
 		res = "fail";       // the HTTP handler turns exceptions into an error response as well
 	}
+	if (tn == "ScheduledDowntime") DrainThreadPool();      // ScheduledDowntime::Start queues CreateNextDowntime
 	std::ostringstream o;
 	o << "cw_create res=" << res;
 	auto *ct = dynamic_cast<ConfigType *>(type.get());
@@ -366,7 +446,7 @@ VOP(cw_create)
 		}
 		o << " attrs=" << r << ";";
 	}
-	if (res == "ok" && obj) {
+	if (res == "ok" && obj && type->GetFieldId("vars") >= 0) {
 		Value vars;
 		try { vars = obj->GetFieldByName("vars", false, DebugInfo()); } catch (...) { vars = "<exc>"; }
 		o << " vars=" << CwEnc(vars);
@@ -375,20 +455,48 @@ VOP(cw_create)
 	Out(o.str());
 }
 
+static std::string Quoted(const std::string& s)
+{
+	std::ostringstream q;
+	ConfigWriter::EmitString(q, String(s));
+	return q.str();
+}
+
 // an object that was NOT created at runtime (config text, package != _api)
 VOP(cw_static)
 {
 	CaseBegin();
 	std::string tn = a.str("type", "Host"), name = HexDec(a.str("name", "-"));
 	Track(tn, name);
-	std::ostringstream c, q;
-	std::string full = name;
-	ConfigWriter::EmitString(q, String(tn == "Service" ? name.substr(name.find('!') + 1) : name));
-	c << "object " << tn << " " << q.str() << " {\n  check_command = \"cwcmd\"\n  enable_active_checks = false\n";
-	if (tn == "Service") { std::ostringstream h; ConfigWriter::EmitString(h, String(name.substr(0, name.find('!')))); c << "  host_name = " << h.str() << "\n"; }
+	std::vector<std::string> parts;
+	{
+		size_t p = 0;
+		while (true) {
+			size_t e = name.find('!', p);
+			parts.push_back(name.substr(p, e == std::string::npos ? e : e - p));
+			if (e == std::string::npos) break;
+			p = e + 1;
+		}
+	}
+	bool composite = dynamic_cast<NameComposer *>(Type::GetByName(tn).get()) != nullptr;
+	std::ostringstream c;
+	c << "object " << tn << " " << Quoted(composite ? parts.back() : name) << " {\n";
+	if (tn == "Host" || tn == "Service") c << "  check_command = \"cwcmd\"\n  enable_active_checks = false\n";
+	if (tn == "CheckCommand" || tn == "NotificationCommand" || tn == "EventCommand") c << "  command = [ \"/bin/true\" ]\n";
+	if (composite) {
+		std::string hk = tn == "Dependency" ? "child_host_name" : "host_name", sk = tn == "Dependency" ? "child_service_name" : "service_name";
+		c << "  " << hk << " = " << Quoted(parts[0]) << "\n";
+		if (tn != "Service" && parts.size() > 2) c << "  " << sk << " = " << Quoted(parts[1]) << "\n";
+	}
+	if (tn == "Notification") c << "  command = \"cwncmd\"\n  users = [ \"cwuser\" ]\n";
+	if (tn == "Dependency") c << "  parent_host_name = " << Quoted(a.has("parent") ? HexDec(a.str("parent")) : parts[0]) << "\n";
+	if (tn == "Comment") c << "  author = \"cw\"\n  text = \"t\"\n";
+	if (tn == "Downtime") c << "  author = \"cw\"\n  comment = \"c\"\n  start_time = 2100000000\n  end_time = 2100003600\n";
+	if (tn == "ScheduledDowntime") c << "  author = \"cw\"\n  comment = \"c\"\n  ranges = { }\n";
 	c << "}\n";
 	std::string res = "ok";
 	try { LoadConfig(c.str()); } catch (const std::exception&) { res = "fail"; }
+	if (tn == "ScheduledDowntime") DrainThreadPool();
 	Out("cw_static res=" + res + StoreLine());
 }
 
@@ -419,42 +527,111 @@ VOP(cw_global)
 	Out("cw_global ok");
 }
 
+// removal order at the end of a case: objects that refer to others first
+static int TypeRank(const std::string& t)
+{
+	if (t == "Notification" || t == "Dependency" || t == "ScheduledDowntime" || t == "Comment" || t == "Downtime") return 0;
+	if (t == "Service") return 1;
+	if (t == "Host" || t == "User") return 2;
+	return 3;
+}
+
+static void RemoveObject(const Type::Ptr& type, const ConfigObject::Ptr& obj)
+{
+	String path = obj->GetPackage() == "_api" ? ConfigObjectUtility::GetExistingObjectConfigPath(obj) : String();
+	try { obj->Deactivate(true); } catch (...) {}
+	ConfigItem::Ptr item = ConfigItem::GetByTypeAndName(type, obj->GetName());
+	if (item) item->Unregister(); else obj->Unregister();
+	if (!path.IsEmpty()) try { Utility::Remove(path); } catch (...) {}
+}
+
+
+// What a restart does with the package, without restarting: every live _api object is recorded (config attributes),
+// unregistered WITHOUT touching its file, then all object files of the stage are compiled with package "_api",
+// evaluated, committed and activated in one activation context (as the daemon's config load does), and the resulting
+// _api objects are compared with the record: load ok / objects that did not come back / objects that appeared /
+// objects whose config attributes differ.  Only as the LAST operation of a case.
+VOP(cw_restart)
+{
+	CaseBegin();
+	// Only the _api package is reloaded.  A statically configured object created by this case would keep pointing at the
+	// OLD instance of a run-time parent (its DependencyGraph edge could then never be removed): not emulated.
+	for (auto& x : l_Tracked) {
+		auto *ct = dynamic_cast<ConfigType *>(Type::GetByName(x.type).get());
+		ConfigObject::Ptr obj = ct ? ct->GetObject(x.name) : nullptr;
+		if (obj && obj->GetPackage() != "_api") { Out("cw_restart res=skipped"); return; }
+	}
+	std::map<std::pair<std::string, std::string>, std::string> before, after;
+	auto snapshot = [](std::map<std::pair<std::string, std::string>, std::string>& m) {
+		for (const Type::Ptr& type : Type::GetAllTypes()) {
+			auto *ct = dynamic_cast<ConfigType *>(type.get());
+			if (!ct) continue;
+			for (const ConfigObject::Ptr& obj : ct->GetObjects()) {
+				if (obj->GetPackage() != "_api") continue;
+				Dictionary::Ptr d = Serialize(obj, FAConfig);
+				m[{type->GetName().GetData(), obj->GetName().GetData()}] = JsonEncode(d).GetData();
+			}
+		}
+	};
+	snapshot(before);
+	for (int rank = 0; rank < 4; rank++)
+		for (const Type::Ptr& type : Type::GetAllTypes()) {
+			auto *ct = dynamic_cast<ConfigType *>(type.get());
+			if (!ct || TypeRank(type->GetName().GetData()) != rank) continue;
+			for (const ConfigObject::Ptr& obj : ct->GetObjects()) {
+				if (obj->GetPackage() != "_api") continue;
+				try { obj->Deactivate(true); } catch (...) {}
+				ConfigItem::Ptr item = ConfigItem::GetByTypeAndName(type, obj->GetName());
+				if (item) item->Unregister(); else obj->Unregister();
+			}
+		}
+	ConfigItem::m_UnnamedItems.clear();
+	std::vector<std::string> files;
+	for (auto& p : ObjectFiles()) if (!l_BaseFiles.count(p)) files.push_back(p);
+	bool ok = false;
+	try {
+		ok = ConfigItem::RunWithActivationContext(new Function("<cw_restart>", [files]() {
+			for (auto& f : files) {
+				std::unique_ptr<Expression> expr = ConfigCompiler::CompileFile(f, String(), "_api");
+				expr->Evaluate(*ScriptFrame::GetCurrentFrame());
+			}
+		}));
+	} catch (const std::exception&) { ok = false; }
+	DrainThreadPool();
+	snapshot(after);
+	size_t missing = 0, extra = 0, changed = 0;
+	for (auto& kv : before) { auto it = after.find(kv.first); if (it == after.end()) missing++; else if (it->second != kv.second) changed++; }
+	for (auto& kv : after) if (!before.count(kv.first)) extra++;
+	std::ostringstream o;
+	o << "cw_restart res=" << (ok ? "ok" : "fail") << " missing=" << missing << " extra=" << extra << " changed=" << changed << " nfiles=" << files.size();
+	Out(o.str());
+}
+
 static struct CwCaseEnd {
 	CwCaseEnd() {
 		RegisterCaseEnd([]() {
-			if (!l_CwInit) return;
-			// remove everything this case created: services first, then hosts
-			for (int pass = 0; pass < 2; pass++)
-				for (auto& x : l_Tracked) {
-					if ((pass == 0) != (x.type == "Service")) continue;
-					Type::Ptr type = Type::GetByName(x.type);
+			if (!l_CwInit || !l_BaseTaken) return;
+			// remove every object that did not exist when the case began (whatever created it), dependents first
+			for (int rank = 0; rank < 4; rank++)
+				for (const Type::Ptr& type : Type::GetAllTypes()) {
 					auto *ct = dynamic_cast<ConfigType *>(type.get());
-					ConfigObject::Ptr obj = ct->GetObject(x.name);
-					if (obj) {
-						String path = obj->GetPackage() == "_api" ? ConfigObjectUtility::GetExistingObjectConfigPath(obj) : String();
-						try { obj->Deactivate(true); } catch (...) {}
-						ConfigItem::Ptr item = ConfigItem::GetByTypeAndName(type, x.name);
-						if (item) item->Unregister(); else obj->Unregister();
-						if (!path.IsEmpty()) try { Utility::Remove(path); } catch (...) {}
-					}
-					ConfigItem::Ptr item = ConfigItem::GetByTypeAndName(type, x.name);
-					if (item) item->Unregister();
-					try { String p = ConfigObjectUtility::ComputeNewObjectConfigPath(type, x.name); if (Utility::PathExists(p)) Utility::Remove(p); } catch (...) {}
+					if (!ct || TypeRank(type->GetName().GetData()) != rank) continue;
+					for (const ConfigObject::Ptr& obj : ct->GetObjects())
+						if (!l_BaseObjects.count({type->GetName().GetData(), obj->GetName().GetData()})) RemoveObject(type, obj);
 				}
-			// stray objects of the test types (e.g. created by injected statements)
-			for (const char *tn : {"Service", "Host"}) {
-				Type::Ptr type = Type::GetByName(tn);
-				auto *ct = dynamic_cast<ConfigType *>(type.get());
-				for (const ConfigObject::Ptr& obj : ct->GetObjects()) {
-					try { obj->Deactivate(true); } catch (...) {}
-					ConfigItem::Ptr item = ConfigItem::GetByTypeAndName(type, obj->GetName());
-					if (item) item->Unregister(); else obj->Unregister();
-				}
+			// left-over items and files of the tracked names
+			for (auto& x : l_Tracked) {
+				Type::Ptr type = Type::GetByName(x.type);
+				ConfigItem::Ptr item = ConfigItem::GetByTypeAndName(type, x.name);
+				if (item && !l_BaseObjects.count({x.type, x.name})) item->Unregister();
 			}
+			for (auto& p : ObjectFiles()) if (!l_BaseFiles.count(p)) try { Utility::Remove(p); } catch (...) {}
 			ConfigItem::m_UnnamedItems.clear();
 			l_Tracked.clear();
 			l_GlobalsBase.clear();
 			l_OthersBase.clear();
+			l_BaseObjects.clear();
+			l_BaseTaken = false;
 			Namespace::Ptr g = ScriptGlobal::GetGlobals();
 			for (const char *n : {"CwProbe", "CwProbe2"}) if (g->Contains(n)) g->Remove(n);
 		});
